@@ -266,11 +266,35 @@ async def link_aclose(inner, pre, post):
     await ag.aclose()
 
 
+async def link_anext_default(inner, pre, post):
+    """the two-argument builtin (3.10+): an awaitable wrapping the __anext__() awaitable; the default -
+    here an async generator of its own, started or not - is not on the path an exception would take"""
+    ag = _agen_body(inner, pre, post, "plain")
+    other = _bystander_agen()
+    if pre:
+        await other.asend(None)
+    aw = _builtin_anext(ag, other)
+    ANEXT_WRAPS[id(aw)] = (aw, ag)      # for the oracle: which async generator this awaitable drives
+    try:
+        await aw
+    finally:
+        ANEXT_WRAPS.pop(id(aw), None)
+    await ag.aclose()
+    await other.aclose()
+
+
 CO_LINKS = {
     "co": link_co, "gc": link_gc, "wrap": link_wrap, "awgen": link_awgen, "anext": link_anext,
     "asend": link_asend, "afor": link_afor, "athrow": link_athrow, "aclose": link_aclose,
     "asend_payload": link_asend_payload,
 }
+
+
+import builtins as _builtins
+ANEXT_WRAPS = {}
+_builtin_anext = getattr(_builtins, "anext", None)
+if _builtin_anext is not None:
+    CO_LINKS["anext_default"] = link_anext_default
 
 
 # ---- generator-context links ------------------------------------------------------------------
@@ -468,6 +492,12 @@ def owner_map(x):
                     m[id(fr)] = o
                 visit(getattr(o, aw))
                 return
+        if type(o).__name__ == "anext_awaitable":
+            # the harness made this awaitable itself and knows which async generator it drives
+            ent = ANEXT_WRAPS.get(id(o))
+            if ent is not None and ent[0] is o:
+                visit(ent[1])
+            return
         for r in gc.get_referents(o):
             if isinstance(r, (types.CoroutineType, types.GeneratorType, types.AsyncGeneratorType)):
                 visit(r)
